@@ -231,6 +231,9 @@ func (c *Ctx) smtInst(o *Obligation) (string, bool) {
 			b.WriteByte('\n')
 		}
 	}
+	for _, d := range c.instAxioms {
+		keep(d)
+	}
 	for _, l := range c.body[:o.Prefix] {
 		if keep(l) {
 			b.WriteString(l)
@@ -383,6 +386,15 @@ func (c *Ctx) smtInst(o *Obligation) (string, bool) {
 	prefixText := b.String() + " " + goal + " " + o.Guard.S
 	var insts []string
 	for _, q := range hyps {
+		if pt := appPattern(q); pt != "" {
+			// an axiom with an explicit trigger that is an application of an uninterpreted function
+			// (floor division facts, contracts of pure functions): instantiated where a matching
+			// term occurs (binders of any sort), not at candidate tuples
+			for _, binds := range matchPatternIn(pt, q.names, prefixText) {
+				insts = append(insts, q.instantiate(binds))
+			}
+			continue
+		}
 		n := len(q.names)
 		allInt := true
 		for _, s := range q.sorts {
@@ -421,12 +433,6 @@ func (c *Ctx) smtInst(o *Obligation) (string, bool) {
 			}
 			for _, v := range cs {
 				insts = append(insts, q.instantiate([]string{v}))
-			}
-		} else if pt := appPattern(q); pt != "" {
-			// an axiom with an explicit trigger that is an application of an uninterpreted function
-			// (floor division facts): instantiated where a matching term occurs, not at all pairs
-			for _, binds := range matchPatternIn(pt, q.names, prefixText) {
-				insts = append(insts, q.instantiate(binds))
 			}
 		} else {
 			if len(skolems) == 2 {
